@@ -5,4 +5,6 @@ var zzEntries = map[string]func(){
 	"ZZ_C19_ops":     ZZ_C19_ops,
 	"ZZ_C19_observe": ZZ_C19_observe,
 	"ZZ_C19_bmc":     ZZ_C19_bmc,
+	"ZZ_MP_step":     ZZ_MP_step,
+	"ZZ_MP_bmc":      ZZ_MP_bmc,
 }
